@@ -217,10 +217,16 @@ pub fn run(opts: &Opts) {
                 c3["blocks"][nb - 1]["checks"].as_array_mut().unwrap().push(bcj);
             }
             let tq = Rule::new(Predicate { name: "data".into(), terms: vec![] }, vec![], vec![tick_expr(qt)], vec![]);
+            // a query that spends its time and then fails (division by zero after the tick): the time is spent all the same
+            let div0 = Expression { ops: vec![Op::Value(Term::Integer(1)), Op::Value(Term::Integer(0)), Op::Binary(biscuit_auth::builder::Binary::Div),
+                Op::Value(Term::Integer(0)), Op::Binary(biscuit_auth::builder::Binary::GreaterThan)] };
+            let tqf = Rule::new(Predicate { name: "data".into(), terms: vec![] }, vec![], vec![tick_expr(*pick(&mut rng, &[300i64, 600, 1100])), div0], vec![]);
             let mut calls: Vec<Value> = (0..rng.gen_range(1..4))
-                .map(|_| match rng.gen_range(0..3) {
+                .map(|_| match rng.gen_range(0..5) {
                     0 => json!({"query": {"all": true, "q": rule_j(&tq, &mut pool, &keys)}}),
                     1 => json!({"query": {"all": false, "q": rule_j(&tq, &mut pool, &keys)}}),
+                    2 => json!({"query": {"all": false, "q": rule_j(&tqf, &mut pool, &keys)}}),
+                    3 => json!({"query": {"all": true, "q": rule_j(&tqf, &mut pool, &keys)}}),
                     _ => json!("authorize"),
                 })
                 .collect();
